@@ -223,7 +223,8 @@ def _stamp_sites(it, g, entries_field=None, sub=()):
 @rule('STAMP', {
     'C04': 'an add that does not stamp every listed member leaves that member absent',
     'C05': 'an update that does not stamp the entry clock / forward the nested op loses the update',
-}, floor=2)
+    'C08': 'an update overtaken by a remove must still be applied in full when it arrives: what the nested op does beyond its own dot is otherwise lost, and causal delivery would have kept it',
+}, floor=2, inst_filter={'C08': lambda i: i.startswith('map') or i in ('floor', 'anchor', 'internal')})
 def stamp(ctx):
     """Orswot Add: for every member of the op the member's witness clock absorbs the op dot.
     Map Up: the entry clock absorbs the dot and the nested op reaches entry.val.apply."""
@@ -303,11 +304,11 @@ def stamp(ctx):
                 if kp and kp[0] == 2 and kp[1][-1:] == ('Up.key',) and cp and cp[0] == 1:
                     nested.append(bb)
     if not key_ok:
-        ctx.fail('map/Up', body, 'the entry clock of op.key is not stamped with the op dot', props=['C05'])
+        ctx.fail('map/Up', body, 'the entry clock of op.key is not stamped with the op dot', props=['C05', 'C08'])
     elif not nested:
-        ctx.fail('map/Up', body, 'the nested op is not forwarded to entries[op.key].val.apply', props=['C05'])
+        ctx.fail('map/Up', body, 'the nested op is not forwarded to entries[op.key].val.apply', props=['C05', 'C08'])
     elif not r.must_pass([s[0] for s in key_ok]) or not r.must_pass(nested):
-        ctx.fail('map/Up', body, 'a gated path skips stamping the entry clock or forwarding the nested op', props=['C05'])
+        ctx.fail('map/Up', body, 'a gated path skips stamping the entry clock or forwarding the nested op', props=['C05', 'C08'])
     else:
         ctx.ok('map/Up', body, 'entry clock stamped and nested op forwarded on every gated path',
-               line=block_line(it, key_ok[0][0]), props=['C05'])
+               line=block_line(it, key_ok[0][0]), props=['C05', 'C08'])
